@@ -181,3 +181,35 @@ package kvm
 //@   atcall operation.execute requires [noStateChangeInStaticFrame] readOnly ==> !operation.writes
 //@   atcall NewMemory requires [frameStartsWithEmptyReturnData] in.returnData == nil
 //@   ensures [codelessFrameLeavesNoReturnData] old(len(contract.Code)) == 0 ==> in.returnData == nil && ret == nil && err == nil
+
+// ---------------------------------------------------------------- C10: memory sizing of the call family, stack bounds of added opcodes
+// calcMemSize64WithUint: offset + length without wrap-around, or overflow.
+//@ spec func u256(x *uint256.Int) int
+//@ func calcMemSize64WithUint(off *uint256.Int, length64 uint64) (r uint64, overflow bool)
+//@   for C10
+//@   ensures [zeroLengthNeedsNothing] length64 == 0 ==> r == 0 && !overflow
+//@ func memoryCall(stack *Stack) (r uint64, overflow bool)
+//@   for C10
+//@   ensures [coversBothRegions] !overflow ==> r >= x && r >= y && (r == x || r == y)
+//@ func memoryDelegateCall(stack *Stack) (r uint64, overflow bool)
+//@   for C10
+//@   ensures [coversBothRegions] !overflow ==> r >= x && r >= y && (r == x || r == y)
+//@ func memoryStaticCall(stack *Stack) (r uint64, overflow bool)
+//@   for C10
+//@   ensures [coversBothRegions] !overflow ==> r >= x && r >= y && (r == x || r == y)
+
+// The stack bounds of an operation follow from what it pops and pushes: it needs `pops` items and
+// must leave room for its net growth below the limit of 1024.
+//@ func maxStack(pop, push int) (r int)
+//@   for C10
+//@   requires 0 <= pop && pop <= 1024 && 0 <= push && push <= 1024
+//@   ensures r == 1024 + pop - push
+//@ func minStack(pops, push int) (r int)
+//@   for C10
+//@   ensures r == pops
+// CHAINID pops nothing and pushes one word.
+//@ func enable1344(jt *JumpTable)
+//@   for C10
+//@   requires jt != nil
+//@   modifies *jt
+//@   ensures [chainIdPushesOneWord] jt[CHAINID] != nil && jt[CHAINID].minStack == 0 && jt[CHAINID].maxStack == 1023
